@@ -310,3 +310,16 @@ Proof.
   destruct (nth_error (pubs c) j) as [p|] eqn:Ep; [|contradiction].
   apply holder_cs in Hv. unfold pstep. destruct (pc p); try discriminate.
 Qed.
+
+(* the modelled threads never deadlock: while a publisher is unfinished some publisher can step *)
+Theorem sched_no_deadlock m0 l0 pipe0 nmsgs s : 0 <= m0 <= 65535 ->
+  let c := sched_run s (init m0 l0 pipe0 nmsgs) in
+  (exists i p, nth_error (pubs c) i = Some p /\ pc p <> PDone) ->
+  exists j, tstep (Pub j) c <> None.
+Proof.
+  intros Hm c (i & p & Hp & Hnd).
+  destruct (mid_lock c) as [j|] eqn:El.
+  - exists j. apply (lock_holder_can_step m0 l0 pipe0 nmsgs s j Hm). exact El.
+  - exists i. cbn [tstep]. rewrite Hp. unfold pstep. rewrite El.
+    destruct (pc p); try discriminate; try (destruct (sock c); discriminate). contradiction.
+Qed.
